@@ -45,4 +45,13 @@ def run(tier):
                          f"{len(progs)} loop programs (ranges incl. descending / non-dividing steps / empty, lists, variable bounds, nesting, "
                          f"body locals, iterator in literals, calls in bodies, parameters shadowing the iterator) judged against S3's unrolling; optimize={optimize}",
                          cr.known, opts={"optimize": optimize})
+    from contracts import cparse as _cparse
+    from bounded.contract_enum import run_contract_enum as _rce_parse
+    from bounded import pipeline as _pl_parse
+    _pl_parse.ensure_repo()
+    _sargs = _cparse.statement_arg_sets()
+    cr.bounded_check(_rce_parse, "statement-forms-box", _cparse.statement_c, _sargs,
+                     f"{len(_sargs)} statement texts (loop headers with negative / named bounds and steps, value lists, declarations, memory writes with when / set / reset in both "
+                     "orders, place arguments and property dictionaries, function parameters, bundle forms): the real parser's tree carries exactly what the text says — S3 takes its trees "
+                     "from that parser (contract evaluated on the real DSLParser.parse)")
     return cr.finish()
